@@ -27,15 +27,21 @@ def corner_spec(S):
 
 
 def run(ctx):
-    for mp in MAPS:
-        table_rule(ctx, "C11.T", mp)
-    ctx.floor("C11.T", 2 * 12)
-    for path, kind in SIBLINGS:
-        midpoint_rule(ctx, "C11.M", "C11.E", path, kind)
+    # the corner-table functions are the ones the constructors actually call (the two private copies of the pinned
+    # tree may be merged into one): each is judged by the table rule
+    used = set()
     for ctor, adt in (("composition::cgr::CgrComputer::new", "composition::cgr::CgrComputer"),
                       ("pybindings::cgr::CgrComputer::new", "pybindings::cgr::CgrComputer"),
                       ("composition::oligocgr::OligoCgrComputer::new", "composition::oligocgr::OligoCgrComputer")):
-        ctor_rule(ctx, "C11.C", ctor, adt)
+        used.add(ctor_rule(ctx, "C11.C", ctor, adt))
+    used.discard(None)
+    for mp in sorted(used):
+        table_rule(ctx, "C11.T", mp)
+    ctx.floor("C11.T", 12 * max(1, len(used)))
+    if not used:
+        ctx.fail("C11.T", "maps:anchor", "no constructor takes its centre and corner table from a workspace function")
+    for path, kind in SIBLINGS:
+        midpoint_rule(ctx, "C11.M", "C11.E", path, kind)
     fv = ctx.need("C11.O", "composition::cgr::CgrComputer::vectorise")
     if fv is not None:
         rule_ordered_collects(ctx, "C11.O", fv, 1)
@@ -45,6 +51,8 @@ def run(ctx):
         error_discipline(ctx, "C11.E", fv, "cgr::vectorise", "composition::cgr::CgrComputer::vectorise_one")
     from . import c06
     c06.reader_deps(ctx, "C11")
+    from . import c15
+    c15.cli_arm_dep(ctx, "C11", ('Cgr',))
 
 
 def table_rule(ctx, rule, path):
@@ -192,10 +200,11 @@ def ctor_rule(ctx, rule, ctor, adt):
     c, m = fs.get("cgr_center"), fs.get("cgr_map")
     vp = param_index(fv, "vecsize")
     ok = c is not None and m is not None and c[0] == "proj" and m[0] == "proj" and c[1] == 0 and m[1] == 1 and c[2] == m[2] \
-        and c[2][0] == "call" and c[2][1] in MAPS and c[2][2] == ("cast", "f64", ("param", vp))
-    ctx.check(rule, "%s:maps" % adt, ok, "centre and map from one cgr_maps(vecsize as f64)",
+        and c[2][0] == "call" and ctx.prog.fn(c[2][1]) is not None and c[2][2] == ("cast", "f64", ("param", vp))
+    ctx.check(rule, "%s:maps" % adt, ok, "centre and map from one %s(vecsize as f64)" % (c[2][1] if ok else "cgr_maps"),
               "cgr_center / cgr_map are `%s` / `%s`; expected the two components of one cgr_maps(vecsize as f64)"
               % (show(c) if c else "?", show(m) if m else "?"), line_of(lit))
+    return c[2][1] if ok else None
 
 
 def point_text(ctx, rule, fv, who, template, nargs):
